@@ -150,13 +150,21 @@ SlotsNeeded(t, r) == CeilDiv(Need(t, r), Cap(r))
 KthAvail(r, s, k) == IF s >= P.N \/ k < 1 THEN -1
                      ELSE LET av == SelectSeq([i \in 1..(P.N - s) |-> s + i - 1], LAMBDA x : AvailR(r, x))
                           IN  IF Len(av) >= k THEN av[k] ELSE -1
-\* one-time choice between primaries and alternatives ("smart routing"): the candidate set whose FIRST resource would
-\* finish earlier, counting every available slot from the cursor as a whole slot; ties and failures go to the primaries
+\* one-time choice among the candidates of an allocation ("smart routing").  The candidates are the primaries (together,
+\* as a team) and every alternative on its own (C03: exactly one of the candidates is booked).  The candidate whose
+\* (first) resource would finish earliest wins, counting every available slot from the cursor as a whole slot; ties
+\* and failures go to the earlier candidate (primaries first, then the alternatives in the order written)
 EstEnd(t, rs, c) == IF rs = <<>> \/ T(t).effort = 0 THEN -1 ELSE KthAvail(rs[1], c, SlotsNeeded(t, rs[1]))
+RECURSIVE SelFrom(_, _, _, _, _)
+SelFrom(t, c, i, best, be) ==
+  IF i > Len(T(t).alt) THEN best
+  ELSE LET e == EstEnd(t, <<T(t).alt[i]>>, c)
+       IN  IF e >= 0 /\ (be < 0 \/ e < be) THEN SelFrom(t, c, i + 1, <<T(t).alt[i]>>, e) ELSE SelFrom(t, c, i + 1, best, be)
 ExpSel(t, c) == IF T(t).alt = <<>> THEN T(t).alloc
-                ELSE IF T(t).alloc = <<>> THEN T(t).alt
-                ELSE LET pe == EstEnd(t, T(t).alloc, c)  ae == EstEnd(t, T(t).alt, c)
-                     IN  IF ae >= 0 /\ (pe < 0 \/ ae < pe) THEN T(t).alt ELSE T(t).alloc
+                ELSE IF T(t).alloc # <<>> THEN SelFrom(t, c, 1, T(t).alloc, EstEnd(t, T(t).alloc, c))
+                ELSE SelFrom(t, c, 2, <<T(t).alt[1]>>, EstEnd(t, <<T(t).alt[1]>>, c))
+\* C03: what may be booked for an allocation with alternatives: the primaries, or exactly one alternative
+OneCandidate(t, S) == S \subseteq SeqSet(T(t).alloc) \/ (S \subseteq SeqSet(T(t).alt) /\ Cardinality(S) <= 1)
 \* a `contiguous` task starts only where its first primary resource has an unbroken run of available slots for all of it
 ContigOk(t, s) == LET r1 == T(t).alloc[1] IN \A j \in 0..(SlotsNeeded(t, r1) - 1) : s + j < P.N /\ AvailR(r1, s + j)
 BookableC(t, s) == Bookable(t, s) /\ ((HasFlag(t, "contiguous") /\ ts[t].done = 0 /\ Len(T(t).alloc) > 0) => ContigOk(t, s))
